@@ -1,16 +1,355 @@
 package consensus_sim
 
-import "time"
+// Stage 2: crash / restart (C33, C34).
+//
+// A crash is either "between two simulator events" or "at the k-th physical op
+// over all of the node's simdb disks" (simdb.Machine.CrashAt -> CrashSentinel
+// panics inside the node's goroutine; ConsensusState.receiveRoutine's own
+// recover logs CONSENSUS FAILURE and stops — the simulator tells the two apart
+// by the machine's Dead flag). What survives: simdb images (kill: every op
+// issued; power loss: synced prefix + drawn part of the unsynced tail, per
+// disk), the WAL file image (kill: bytes already write()n, user-space buffer
+// lost; power loss: bytes up to the last fsync + a drawn, possibly torn, prefix
+// of the rest), the privval state file as it is on disk (WriteFileAtomic).
+// Restart = node.boot(): the same public constructors production uses.
+import (
+	"bytes"
+	"fmt"
+	"os"
+	"strings"
+	"testing/synctest"
+	"time"
 
-// Stage 2 (crash / restart) — see crash handling below.
+	abci "github.com/gnolang/gno/tm2/pkg/bft/abci/types"
+	sm "github.com/gnolang/gno/tm2/pkg/bft/state"
+	"github.com/gnolang/gno/tm2/pkg/bft/store"
+	"github.com/gnolang/gno/tm2/pkg/bft/types"
+
+	"verif/sim/simdb"
+)
 
 type crashPlan struct {
-	node int
-	at   time.Duration
+	node  int
+	at    time.Duration
+	kthOp int  // 0 = between events
+	power bool // power-loss images (else kill)
+	down  time.Duration
+	boot  int // >0: also crash the k-th op of the restart itself (handshake / replay), then restart again
 }
 
-func (s *sim) planCrashes(span time.Duration) {}
+func (s *sim) planCrashes(span time.Duration) {
+	c := s.c
+	if s.w.crash == 0 || !c.Chance(s.w.crash, s.w.crash+1) {
+		return
+	}
+	k := 1 + c.Intn(4)
+	spanMs := int(span / time.Millisecond)
+	for i := 0; i < k; i++ {
+		cp := crashPlan{node: s.nodes[c.Intn(len(s.nodes))].id}
+		cp.at = time.Duration(c.Intn(spanMs)) * time.Millisecond
+		if c.Chance(3, 4) {
+			cp.kthOp = 1 + c.Intn(40)
+		}
+		cp.power = c.Bool()
+		cp.down = time.Duration(50+c.Intn(4000)) * time.Millisecond
+		if c.Chance(1, 4) {
+			cp.boot = 1 + c.Intn(12)
+		}
+		s.crashPlan = append(s.crashPlan, cp)
+		cpp := cp
+		s.schedule(cp.at, -1, func() { s.armCrash(cpp) })
+	}
+}
 
-func (s *sim) onCrashed(n *node, log []obs) {}
+func (s *sim) armCrash(cp crashPlan) {
+	n := s.slots[cp.node].node
+	if !n.up || s.now() >= s.net.stabAt || n.pendingCrash != nil {
+		return
+	}
+	n.pendingCrash = &cp
+	if cp.kthOp == 0 {
+		s.event("crash n%d between events (power=%v)", n.id, cp.power)
+		n.mach.Dead = true // freeze the devices: from here on nothing reaches the disks
+		s.onCrashed(n, nil)
+		return
+	}
+	n.mach.CrashAt = n.mach.Ops + uint64(cp.kthOp)
+	s.event("arm crash n%d at its physical op +%d (power=%v)", n.id, cp.kthOp, cp.power)
+}
 
-func (s *sim) restartAllDown() {}
+// onCrashed: the node's machine is dead (sentinel fired inside one of its goroutines, or a kill between events).
+func (s *sim) onCrashed(n *node, log []obs) {
+	cp := n.pendingCrash
+	if cp == nil {
+		cp = &crashPlan{node: n.id, down: time.Second}
+	}
+	s.crashesFired++
+	s.r.Fault("crash")
+	if cp.power {
+		s.r.Fault("crash_power_loss_image")
+	} else {
+		s.r.Fault("crash_kill_image")
+	}
+	// signatures released before the death count for the signer log; votes the node had already added
+	// may or may not have left the machine
+	var added []*released
+	sent := map[string]bool{}
+	for i := range log {
+		o := &log[i]
+		if o.rel != nil {
+			s.or.signed(n, o.rel)
+			added = append(added, o.rel)
+		}
+		if ev, ok := o.ev.(types.EventVote); ok && ev.Vote != nil && ev.Vote.ValidatorAddress == n.addr {
+			sent[string(ev.Vote.Signature)] = true
+		}
+	}
+	rs := n.cs.GetRoundState()
+	for _, rl := range added {
+		if rl.vote != nil && sent[string(rl.sig)] && s.c.Bool() {
+			s.emitOwn(n, rs, rl)
+		}
+	}
+	s.event("crashed n%d (life %d) at op %d store=%d", n.id, n.life, n.mach.Ops, n.bs.Height())
+	s.probeCrashPoint(n)
+
+	// --- images ---
+	// WAL: the kill image is what is on disk before anybody flushes
+	n.crashing = true
+	var killImg []byte
+	if n.wal != nil && n.wal.haveImage {
+		killImg = n.wal.killImage
+	} else {
+		killImg, _ = os.ReadFile(n.walFile())
+	}
+	synced := int64(0)
+	if n.wal != nil {
+		synced = n.wal.syncedLen
+	}
+	n.shutdown() // stops receiveRoutine (if still there), WAL, event switch, app conns; flushes are undone below
+	synctest.Wait()
+	img := killImg
+	if cp.power {
+		if synced > int64(len(img)) {
+			synced = int64(len(img))
+		}
+		if tail := len(img) - int(synced); tail > 0 {
+			keep := s.c.Intn(tail + 1)
+			if keep < tail {
+				s.r.Fault("wal_unsynced_tail_lost")
+			}
+			img = img[:int(synced)+keep]
+		}
+	}
+	if s.trace {
+		fmt.Fprintf(os.Stderr, "WAL image n%d: kill=%d synced=%d kept=%d power=%v\n", n.id, len(killImg), synced, len(img), cp.power)
+	}
+	n.lastWalImage = img
+	n.lastWalImageTorn = len(img) > 0 && img[len(img)-1] != '\n'
+	n.lastCrashPower = cp.power
+	if n.lastWalImageTorn {
+		s.r.Probe("wal_image_ends_in_torn_line")
+	}
+	if err := os.WriteFile(n.walFile(), img, 0o600); err != nil {
+		panic(err)
+	}
+	for _, d := range []*simdb.Disk{n.blockDisk, n.stateDisk, n.appDisk} {
+		keep := d.Unsynced()
+		if cp.power && keep > 0 {
+			k := s.c.Intn(keep + 1)
+			if k < keep {
+				s.r.Fault("db_unsynced_tail_lost")
+			}
+			keep = k
+		}
+		d.Crash(keep)
+	}
+	n.mach.Reboot()
+	n.up = false
+	n.pendingCrash = nil
+	n.downSince = s.now()
+	bootCrash := cp.boot
+	s.schedule(s.now()+cp.down, -1, func() { s.restart(n, bootCrash) })
+}
+
+// probeCrashPoint records where in block processing the node died (evidence: which crash points were reached).
+func (s *sim) probeCrashPoint(n *node) {
+	st := sm.LoadState(n.stateDisk.Open())
+	info := newSimapp(n.appDisk.Open()).Info(abci.RequestInfo{})
+	store := n.bs.Height()
+	switch {
+	case store == st.LastBlockHeight && info.LastBlockHeight == store:
+		s.r.Probe("crash_point_between_blocks")
+	case store == st.LastBlockHeight+1 && info.LastBlockHeight == st.LastBlockHeight:
+		s.r.Probe("crash_point_block_saved_app_not_committed")
+	case store == st.LastBlockHeight+1 && info.LastBlockHeight == store:
+		s.r.Probe("crash_point_app_committed_state_not_saved")
+	default:
+		s.r.Probe("crash_point_other")
+	}
+}
+
+func (s *sim) restartAllDown() {
+	for _, n := range s.nodes {
+		if !n.up && !n.halted && n.life > 0 {
+			s.restart(n, 0)
+		}
+	}
+}
+
+// restart boots the node again from what survived. bootCrash>0 additionally kills the restart itself at
+// its k-th physical op (crash during handshake / block replay), after which it is restarted once more.
+func (s *sim) restart(n *node, bootCrash int) {
+	if n.up || n.halted || s.stop {
+		return
+	}
+	// which Handshaker.ReplayBlocks case is this?
+	st := sm.LoadState(n.stateDisk.Open())
+	app := newSimapp(n.appDisk.Open()).Info(abci.RequestInfo{})
+	bsH := loadStoreHeight(n)
+	stH := st.LastBlockHeight
+	if st.IsEmpty() {
+		stH = s.initialH - 1
+	}
+	switch {
+	case bsH == 0 || bsH < s.initialH:
+		s.r.Probe("handshake_case_empty_store")
+	case bsH == stH && app.LastBlockHeight < bsH:
+		s.r.Probe("handshake_case_store_eq_state_app_behind")
+	case bsH == stH && app.LastBlockHeight == bsH:
+		s.r.Probe("handshake_case_all_equal")
+	case bsH == stH+1 && app.LastBlockHeight < stH:
+		s.r.Probe("handshake_case_store_ahead_app_further_behind")
+	case bsH == stH+1 && app.LastBlockHeight == stH:
+		s.r.Probe("handshake_case_store_ahead_app_eq_state")
+	case bsH == stH+1 && app.LastBlockHeight == bsH:
+		s.r.Probe("handshake_case_store_ahead_app_eq_store_mock_replay")
+	default:
+		s.r.Probe("handshake_case_other")
+	}
+	if bootCrash > 0 && s.now() < s.net.stabAt {
+		n.mach.CrashAt = n.mach.Ops + uint64(bootCrash)
+	}
+	s.event("restart n%d (life %d) store=%d state=%d app=%d", n.id, n.life+1, bsH, stH, app.LastBlockHeight)
+	var bootErr error
+	var crashed bool
+	func() {
+		defer func() {
+			if e := recover(); e != nil {
+				if _, ok := e.(simdb.CrashSentinel); ok {
+					crashed = true
+					return
+				}
+				bootErr = fmt.Errorf("panic: %v", e)
+			}
+		}()
+		bootErr = n.boot()
+	}()
+	synctest.Wait()
+	if crashed || n.mach.Dead {
+		// died again while recovering
+		s.r.Fault("crash_during_restart")
+		s.event("n%d crashed during restart", n.id)
+		n.pendingCrash = &crashPlan{node: n.id, power: s.c.Bool(), down: time.Duration(100+s.c.Intn(1000)) * time.Millisecond}
+		n.mu.Lock()
+		log := n.obs
+		n.obs = nil
+		n.mu.Unlock()
+		s.onCrashed(n, log)
+		return
+	}
+	n.mach.CrashAt = 0
+	if bootErr != nil {
+		if s.trace {
+			bz, _ := os.ReadFile(n.walFile())
+			lines := bytes.Split(bz, []byte("\n"))
+			fmt.Fprintf(os.Stderr, "WAL %d bytes, %d lines; last sizes:", len(bz), len(lines))
+			for i := max(0, len(lines)-12); i < len(lines); i++ {
+				l := lines[i]
+				hd := l
+				if len(hd) > 24 {
+					hd = hd[:24]
+				}
+				fmt.Fprintf(os.Stderr, " [%d:%q]", len(l), hd)
+			}
+			fmt.Fprintln(os.Stderr)
+		}
+		// a torn last WAL line (no trailing newline) that the restart's own replay then appends to?
+		img, _ := os.ReadFile(n.walFile())
+		torn := n.lastWalImageTorn && strings.Contains(bootErr.Error(), "DataCorruptionError")
+		n.shutdown()
+		synctest.Wait()
+		if torn {
+			oracle := "restart_failed_torn_wal_tail_kill_image"
+			if n.lastCrashPower {
+				oracle = "restart_failed_torn_wal_tail_power_loss_image"
+			}
+			before := len(s.r.Known)
+			s.fail("C33", oracle, "n%d cannot restart: its WAL image ends in a torn line (no newline; %s), catch-up replay appends new records right after the fragment and then reads fragment+record as one corrupt line: %v (store=%d state=%d app=%d)",
+				n.id, map[bool]string{true: "power loss: unsynced tail partly lost", false: "kill: bufio had flushed part of a record"}[n.lastCrashPower], bootErr, bsH, stH, app.LastBlockHeight)
+			if len(s.r.Known) > before || (s.only != nil && !s.only["C33"]) {
+				// known finding: do what the operator is told to do (repair = drop the fragment) and go on
+				if i := bytes.LastIndexByte(n.lastWalImage, '\n'); i >= 0 {
+					os.WriteFile(n.walFile(), n.lastWalImage[:i+1], 0o600)
+				}
+				n.lastWalImageTorn = false
+				n.mach.Reboot()
+				for _, d := range []*simdb.Disk{n.blockDisk, n.stateDisk, n.appDisk} {
+					d.Crash(d.Unsynced())
+				}
+				s.event("operator repairs n%d's WAL (drops the torn fragment)", n.id)
+				s.schedule(s.now()+time.Millisecond, -1, func() { s.restart(n, 0) })
+				return
+			}
+			_ = img
+			n.halted = true
+			return
+		}
+		oracle := "restart_failed"
+		note := ""
+		if n.lastCrashPower && bsH == stH+1 && app.LastBlockHeight == bsH && strings.Contains(bootErr.Error(), "Could not find results for height") {
+			oracle = "restart_failed_abci_responses_not_durable"
+			note = " [power loss after the app's synced Commit but the ABCI responses of that height, written to the state DB with an unsynced Set, were lost: the mock-app replay of the handshake needs them]"
+		}
+		s.fail("C33", oracle, "n%d cannot restart after its crash (store=%d state=%d app=%d before the handshake, power-loss image=%v): %v%s", n.id, bsH, stH, app.LastBlockHeight, n.lastCrashPower, bootErr, note)
+		n.halted = true
+		return
+	}
+	s.r.Probe("restart_ok")
+	// after the handshake: block store, state and application agree
+	st2 := sm.LoadState(n.stateDB)
+	info := n.app.Info(abci.RequestInfo{})
+	top := n.bs.Height()
+	if top >= s.initialH {
+		if st2.LastBlockHeight != top || info.LastBlockHeight != top {
+			s.fail("C33", "handshake_heights", "n%d after restart: block store height %d, state height %d, app height %d", n.id, top, st2.LastBlockHeight, info.LastBlockHeight)
+			return
+		}
+		if !bytes.Equal(st2.AppHash, info.LastBlockAppHash) {
+			s.fail("C33", "handshake_app_hash", "n%d after restart at height %d: state app hash %X, app says %X", n.id, top, st2.AppHash, info.LastBlockAppHash)
+			return
+		}
+		if want, ok := s.or.appHash[top]; ok && !bytes.Equal(want, st2.AppHash) {
+			s.fail("C33", "handshake_app_hash", "n%d after restart at height %d: app hash %X, a never-crashed twin has %X", n.id, top, st2.AppHash, want)
+			return
+		}
+		if meta := n.bs.LoadBlockMeta(top); meta == nil || !meta.BlockID.Equals(st2.LastBlockID) {
+			s.fail("C33", "handshake_block_id", "n%d after restart: state.LastBlockID %v, block store meta %v", n.id, st2.LastBlockID, meta)
+			return
+		}
+	}
+	// reference vote tallies resume at the next height (the sets were rebuilt from the node's own WAL)
+	nr := s.or.nref(n)
+	nr.cur, nr.last = nil, nil
+	nr.lastPS = nil
+	nr.commitSnap = map[int64]map[int]*refVoteSet{}
+	s.or.afterRestart(n)
+	if s.stop {
+		return
+	}
+	s.afterEvent(n)
+}
+
+func loadStoreHeight(n *node) int64 {
+	return store.LoadBlockStoreStateJSON(n.blockDisk.Open()).Height
+}
